@@ -2,7 +2,10 @@
 
 prove       : Props/C19.lean — (i) generic theorems: if every object's formatter is idempotent (second call: same
               text, same state) then write;write gives the same lines and an interleaved observation does not change a
-              later write; (ii) fixed point at the block level from C01_blocks.
+              later write; (ii) Props/C19Gen.lean — the generation fixed point on the model of read_data: the reader loses,
+              duplicates and reorders no line (C19_reader_partition, every file and state), files every written line in
+              the block it was written in (C19_written_body_read), hence formatting what was read from a written
+              body gives that body again when every input echoes its lines (C19_generation).
 correspond  : the hypotheses of (i) are checked per object class on the real formatters (idempotence of
               format_for_mcnp_input on every object of every explored problem).
 judge       : byte comparison on the real files: write twice; edits with and without interleaved observations;
@@ -27,6 +30,9 @@ THEOREMS = [
     "Repeat.C19_observe_then_edit",
     "Repeat.writeAll_lines",
     "Repeat.fmt_after_pass",
+    "Reader.C19_reader_partition",
+    "Reader.C19_written_body_read",
+    "Reader.C19_generation",
 ]
 
 
@@ -109,6 +115,38 @@ def run_case(case):
             out["g3"] = wholefile.write_text(p3, sc, "g3.imcnp")
         except Exception as e:  # noqa: BLE001
             out["gen_error"] = type(e).__name__ + ": " + str(e)[:160]
+        # hypothesis `Echo` of C19_generation (Props/C19Gen.lean), measured on the objects read from g1: an input formats
+        # back to the lines it was read from.  Measured, not judged: a comment card may travel from one object to its
+        # neighbour between generations without changing a byte of the file (the verdict is the byte comparison above).
+        try:
+            pe = wholefile.read_text(g1, limit, sc, "g1_echo.imcnp")
+            v = pe.mcnp_version
+            ok = bad = bok = bbad = 0
+            for objs in (list(pe.cells), list(pe.surfaces), list(pe.data_inputs)):
+                got_b, want_b = [], []
+                for o in objs:
+                    inp = getattr(o, "_input", None)
+                    if inp is None:
+                        continue
+                    got = [l.rstrip() for l in o.format_for_mcnp_input(v)]
+                    want = [l.rstrip() for l in inp.input_lines]
+                    ts = getattr(o, "thermal_scattering", None)
+                    if ts is not None and getattr(ts, "_input", None) is not None:
+                        # the MT input is held (and printed) by its material, not by problem.data_inputs
+                        want += [l.rstrip() for l in ts._input.input_lines]
+                    got_b += got
+                    want_b += want
+                    if got == want:
+                        ok += 1
+                    else:
+                        bad += 1
+                if got_b == want_b:
+                    bok += 1
+                else:
+                    bbad += 1
+            out["echo"] = [ok, bad, bok, bbad]
+        except Exception as e:  # noqa: BLE001
+            out["echo_error"] = type(e).__name__
         # hypothesis of the generic theorems: every formatter is idempotent on the real objects
         try:
             r = wholefile.read_text(text, limit, sc, "in3.imcnp")
@@ -219,6 +257,7 @@ def run(chk):
     chk.trusted_base = [
         "Lean 4.33.0 kernel",
         "generic model of the writer loop (Props/C19.lean) whose per-object hypotheses are tested on the real formatters on every run",
+        "Model/Reader.lean (read_data), tied to the code by the U-reader correspondence of C11/C20; the Echo hypothesis of C19_generation (lossless trees) is measured per input and covered by the byte comparison of generations",
         "harness tools/props/c19.py",
     ]
     leanio.prove(chk, "MontePyVerif.Props.C19", THEOREMS, "MontePyVerif")
@@ -233,6 +272,11 @@ def run(chk):
         chk.note_case({"name": c["name"], "limit": c["limit"], "hash": chash([c["text"], r.get("script")]), "script": r.get("script")},
                       bool(r.get("script")) or c["text"].count("\n") > 8)
         chk.count("edited" if r.get("script") else "unedited")
+        if "echo" in r:
+            chk.count("echo:inputs-formatting-back-to-their-lines", r["echo"][0])
+            chk.count("echo:inputs-not-echoing(comment card printed by the neighbour, MT printed by its material)", r["echo"][1])
+            chk.count("echoB:blocks-formatting-back-to-their-lines", r["echo"][2])
+            chk.count("echoB:blocks-not-echoing(a second IMP input printed by the merged importance object; bytes judged separately)", r["echo"][3])
         chk.traces_validated += 1
         for e in r.get("script") or []:
             chk.count("edit:" + e[0])
